@@ -8,8 +8,11 @@ This file is BOTH
     `routecore::bgp::message::UpdateMessage::from_octets`  ~  `decode`
     `roto_runtime::types::explode_announcements`            ~  `announcements`
     `roto_runtime::types::explode_withdrawals`              ~  `withdrawals`
+    the engine's direct composition reach ++ unreach                ~  `events` / `run`
     the three callers (bgp_tcp_in/router_handler.rs, bmp_tcp_in/state_machine/
-    machine.rs, mrt_file_in/unit.rs): payloads = reach ++ unreach ~ `events`.
+    machine.rs, mrt_file_in/unit.rs): payloads = reach ++ unreach, where since
+    commit 2186599 (`explode_update`) unreach no longer holds the withdrawal of an
+    NLRI that the same UPDATE announces         ~  `explodeUpdate` / `runCaller`.
 
 Bytes are `Nat`s (< 256 on the wire; the decoder never needs that bound).
 All parse errors are one class (`none`): the property does not distinguish them.
@@ -47,15 +50,22 @@ abbrev Bytes := List Nat
 * `mrtForcesAs4`: MRT, BGP4MP_MESSAGE (2-octet AS) records are parsed with
   `SessionConfig::modern()` like BGP4MP_MESSAGE_AS4 ones (`routecore::mrt::MessageAs4::
   bgp_msg`, reached through `msg.into()` in `mrt_file_in/unit.rs`), so their attribute
-  maps are tagged 4-octet-AS (`true`, the code as written); `false` = tagged as recorded. -/
+  maps are tagged 4-octet-AS (`true`, the code as written); `false` = tagged as recorded.
+* `overlapKept`: the three ingress call sites, one UPDATE that withdraws and announces the
+  same NLRI: `true` = the callers run `explode_announcements` and `explode_withdrawals`
+  separately and emit both, the withdrawal after the announcement (the code as written,
+  before commit 2186599); `false` = they call `explode_update`, which drops the withdrawal
+  of an NLRI the same UPDATE announces (RFC 4271 4.3), the repair. `explode_announcements`
+  / `explode_withdrawals` themselves are the same in both. -/
 structure Variant where
   maskPad : Bool
   eorDrops : Bool
   mrtForcesAs4 : Bool
+  overlapKept : Bool
   deriving DecidableEq, Repr
 
-def asWritten : Variant := ⟨false, true, true⟩
-def repaired : Variant := ⟨true, false, false⟩
+def asWritten : Variant := ⟨false, true, true, true⟩
+def repaired : Variant := ⟨true, false, false, false⟩
 
 /-- Big-endian 16 bit. -/
 def u16 (n : Nat) : Bytes := [n / 256, n % 256]
@@ -324,8 +334,8 @@ def withdrawals (v : Variant) (as4 : Bool) (u : Upd) : Option (List Event) :=
         | none => none
         | some ps => some (ps.map (wdr as4 f) ++ u.withdrawn.map (wdr as4 .v4u))
 
-/-- The callers: `explode_announcements(..)?` then `explode_withdrawals(..)?`,
-    payloads = reach (status Active) followed by unreach (status Withdrawn). -/
+/-- `explode_announcements(..)?` then `explode_withdrawals(..)?` composed directly
+    (what the engine's `wf` stream does with the two functions): reach followed by unreach. -/
 def events (v : Variant) (as4 : Bool) (u : Upd) : Option (List Event) :=
   match announcements v as4 u with
   | none => none
@@ -334,11 +344,40 @@ def events (v : Variant) (as4 : Bool) (u : Upd) : Option (List Event) :=
     | none => none
     | some w => some (a ++ w)
 
-/-- Bytes in, route events out: what an ingress unit derives from one UPDATE PDU. -/
+/-- Bytes in, route events out, for the direct composition (`wf` / `mal` streams). -/
 def run (v : Variant) (as4 : Bool) (bs : Bytes) : Option (List Event) :=
   match decode v bs with
   | none => none
   | some u => events v as4 u
+
+/-! ### The ingress call sites -/
+
+/-- `RotondaRoute::same_nlri`: same address-family variant and same prefix, whatever the
+    attributes. -/
+def sameNlri (a w : Event) : Bool := decide (a.fam = w.fam ∧ a.pfx = w.pfx)
+
+/-- `unreach.retain(|w| !reach.iter().any(|a| a.same_nlri(w)))` in `explode_update`. -/
+def dropOverlap (reach unreach : List Event) : List Event :=
+  unreach.filter (fun w => !reach.any (fun a => sameNlri a w))
+
+/-- What `Processor::process_update` (bgp-in), `extract_route_monitoring_routes` (bmp-in) and
+    `process_message` (mrt-in) turn one UPDATE into: payloads = reach (status Active)
+    followed by unreach (status Withdrawn).  As written the two lists come from
+    `explode_announcements(..)?` and `explode_withdrawals(..)?`; repaired they come from
+    `explode_update(..)?`, which removes from unreach every NLRI that reach holds. -/
+def explodeUpdate (v : Variant) (as4 : Bool) (u : Upd) : Option (List Event) :=
+  match announcements v as4 u with
+  | none => none
+  | some a =>
+    match withdrawals v as4 u with
+    | none => none
+    | some w => some (a ++ (if v.overlapKept then w else dropOverlap a w))
+
+/-- Bytes in, payloads out, through an ingress call site (BGP session; BMP Updating phase). -/
+def runCaller (v : Variant) (as4 : Bool) (bs : Bytes) : Option (List Event) :=
+  match decode v bs with
+  | none => none
+  | some u => explodeUpdate v as4 u
 
 /-- End-of-RIB marker (RFC 4724): nothing but, at most, one empty MP_UNREACH. -/
 def isEoR (u : Upd) : Bool :=
@@ -376,12 +415,12 @@ def isEorRc (u : Upd) : Bool :=
 def runBmpDumping (v : Variant) (as4 : Bool) (bs : Bytes) : Option (List Event) :=
   match decode v bs with
   | none => none
-  | some u => if v.eorDrops && isEorRc u then some [] else events v as4 u
+  | some u => if v.eorDrops && isEorRc u then some [] else explodeUpdate v as4 u
 
 /-! ### The MRT update-file path -/
 
 /-- One BGP4MP_MESSAGE (`as4 = false`) / BGP4MP_MESSAGE_AS4 (`as4 = true`) record. -/
 def runMrt (v : Variant) (as4 : Bool) (bs : Bytes) : Option (List Event) :=
-  run v (v.mrtForcesAs4 || as4) bs
+  runCaller v (v.mrtForcesAs4 || as4) bs
 
 end Rotonda.Codec
